@@ -19,6 +19,7 @@ type AV interface{}
 type BoolV struct {
 	T, F bool // may be true / may be false
 	Opq  bool
+	Der  bool // undecided comparison between computed floats: the two outcomes may be correlated with earlier ones
 }
 
 type IntV struct {
@@ -34,7 +35,8 @@ type FloatV struct {
 	V      float64
 	Opq    bool
 	Finite bool // an input the properties' domains keep finite (coordinates, thresholds)
-	Sym    int  // >0: a free input with an interval in State.fsyms (refined by comparisons with constants)
+	Sym    int  // >0: identity of this unknown; State.fsyms keeps the interval comparisons with constants have established
+	Input  bool // the unknown is a direct input (coordinate, parameter), independent of every other input
 }
 
 type StrV struct {
